@@ -734,7 +734,9 @@ def gen_adversarial(rnd):
     """Scripts built around cyclic / dangling / duplicate references."""
     g = Gen(rnd, 0.3)
     L = [['house', 'h1']]
-    k = rnd.randrange(14)
+    k = rnd.randrange(16)
+    if k == 15:
+        k = 14
     names = list(FRAMES)
     rnd.shuffle(names)
     n = rnd.randint(2, 5)
@@ -880,6 +882,29 @@ def gen_adversarial(rnd):
                            ['do', 'doer', 'param', 'via', 'n', 'per', 'f', pth[0], 'for', 'g', 'in'] + pth,
                            ['aux', 'fb', 'via'] + pth, ['let', 'if'] + pth, ['set', 'elapsed', 'from'] + pth,
                            ['aux', 'fb', 'if'] + pth, ['loggee'] + pth]))
+    elif k == 14:   # aux command shapes around its guards: original / clone / dangling target x as x via x 0..3 needs
+        simple = [['x'], ['x', '==', '1'], ['elapsed', '>=', '1'], ['not', 'y'], ['.ready'], ['.armed', '>', '2'],
+                  ['x', 'of', 'framer'], ['recurred', '>=', '2']]
+        L += [['framer', 'fa', 'be', 'active'], ['frame', 'a']]
+        for _ in range(rnd.randint(1, 2)):
+            line = ['aux', g.ch(['mo', 'mo', 'fb', 'zz'])]
+            if rnd.random() < 0.7:
+                line += ['as', g.ch(['mine', 'c1', 'c2'])]
+            if rnd.random() < 0.3:
+                line += ['via', g.ch(NODES)]
+            m = g.ch([0, 1, 1, 2, 2, 3])
+            if m:
+                line += ['if']
+                for i in range(m):
+                    try:
+                        nd = list(g.ch(simple)) if rnd.random() < 0.75 else g.need()
+                    except NoRef:
+                        nd = ['x']
+                    line += (['and'] if i else []) + nd
+            L.append(line)
+        L += [['go', 'next'], ['frame', 'b'], ['print', 'hi'],
+              ['framer', 'fb', 'be', 'aux'], ['frame', 'a'], ['done'],
+              ['framer', 'mo', 'be', 'moot'], ['frame', 'a'], ['done']]
     else:           # a generated program plus extra structural commands with loose references
         L = Gen(rnd, 0.5).program()
     return L
